@@ -338,6 +338,11 @@ func blockOnListChangeWorker(
 			unblockCh := ctx.cs.capture()
 			defer ctx.cs.releaseCapture()
 
+			if ctx.cs.client.IsCloseRequested() {
+				// the close request came before the capture and could not unblock anything
+				return true
+			}
+
 			defer simYield("block.woke")
 			simYield("block.before-wait")
 			select {
